@@ -206,9 +206,11 @@ CHECKS = {
              "(an open MULTI is discarded, as Redis does): the real LoadCheckpoint must return an offset whose source-history prefix reproduces exactly the cut "
              "dataset, with the sender's run id; (c) a fresh syncer is restarted at that offset and database on the cut state with the source re-served from the "
              "next byte, and must end with the uninterrupted run's dataset. INCR/RPUSH/APPEND make a repeated command visible, SELECTs a checkpoint in the wrong db.",
-        note="layer 1 only (sender level): offsets are relative to a fixed start offset, i.e. the ACK goroutine's effect on the tagging base is C08's subject; command-granular cuts cover byte-granular ones because Redis executes only complete commands; trusts mredis' MULTI/EXEC discard semantics (A5)",
+        note="layer 1 (sender level, broad) uses a fixed start offset; layer 2 (whole Sync() runs incl. checkpoint load, PSYNC, full sync, ACK ticks, cut after every target command, real restart) covers fewer histories; command-granular cuts cover byte-granular ones because Redis executes only complete commands; trusts mredis' MULTI/EXEC discard semantics (A5)",
         rule="execution = (stream, configuration, schedule); each contributes one case per cut position; non-trivial = executions with more than one cut position (at least one command reached the target)",
-        parts=[dict(pkg="./redis-shake/dbSync", harness=["dbsync"], test="^TestVerif_C04$", shards=16, gomaxprocs=2, budget=dict(quick=75, thorough=1500))],
+        parts=[dict(pkg="./redis-shake/dbSync", harness=["dbsync"], test="^TestVerif_C04$", shards=16, gomaxprocs=2, budget=dict(quick=75, thorough=1500)),
+               # layer 2: whole Sync() runs; every run leaves ~64 MB of production-size buffers behind (goroutines that never end by design), so shards are short-lived
+               dict(pkg="./redis-shake/dbSync", harness=["dbsync"], test="^TestVerif_C04E$", shards=16, shards_thorough=256, gomaxprocs=2, budget=dict(quick=75, thorough=600))],
     ),
     "C08": dict(
         level="model_checking",
